@@ -257,18 +257,21 @@ func (n *fNatsSubscriberTransport) Subscribe(topic string, callback FAsyncCallba
 	}
 	n.sub = sub
 	n.isSubscribed = true
+	// Each subscription gets its own quit channel: the one closed by a previous
+	// Unsubscribe must not stop (or be closed again by) this subscription.
+	n.quitC = make(chan struct{})
 	for i := uint(0); i < n.workerCount; i++ {
-		go n.worker(callback)
+		go n.worker(callback, n.quitC)
 	}
 	return nil
 }
 
 // worker should be called as a goroutine. It reads messages off the work
 // channel and calls the user provided callback function.
-func (n *fNatsSubscriberTransport) worker(callback FAsyncCallback) {
+func (n *fNatsSubscriberTransport) worker(callback FAsyncCallback, quitC <-chan struct{}) {
 	for {
 		select {
-		case <-n.quitC:
+		case <-quitC:
 			return
 		case msg := <-n.workC:
 			if len(msg.Data) < 4 {
